@@ -30,6 +30,8 @@ type ReadEvent struct {
 
 // Reader returns (creating it if needed) the named symbolic stream of this run.
 func (r *Run) Reader(name string) *Reader {
+	r.mu.Lock()
+	defer r.mu.Unlock()
 	if rd, ok := r.readers[name]; ok {
 		return rd
 	}
@@ -45,6 +47,8 @@ func (r *Run) SetActor(a string) { r.current = a }
 func (r *Run) ReadEvents() []ReadEvent { return r.monitor }
 
 func (rd *Reader) Read(p []byte) (int, error) {
+	rd.run.mu.Lock()
+	defer rd.run.mu.Unlock()
 	rd.run.monitor = append(rd.run.monitor, ReadEvent{Reader: rd.Name, Actor: rd.run.current, Offset: rd.off, N: len(p), Kind: "bytes"})
 	for i := range p {
 		blk := (rd.off + i) / 32
@@ -65,6 +69,8 @@ func (rd *Reader) Read(p []byte) (int, error) {
 // drawName consumes n bytes from prng and returns the variable name for the element sampled.
 func (r *Run) drawName(prng io.Reader, n int, kind string) (string, error) {
 	if rd, ok := prng.(*Reader); ok {
+		r.mu.Lock()
+		defer r.mu.Unlock()
 		name := fmt.Sprintf("rnd:%s@%d", rd.Name, rd.off)
 		r.monitor = append(r.monitor, ReadEvent{Reader: rd.Name, Actor: r.current, Offset: rd.off, N: n, Kind: kind})
 		rd.off += n
@@ -74,11 +80,13 @@ func (r *Run) drawName(prng io.Reader, n int, kind string) (string, error) {
 	if _, err := io.ReadFull(prng, buf); err != nil {
 		return "", fmt.Errorf("symalg: prng read: %w", err)
 	}
+	r.mu.Lock()
 	r.monitor = append(r.monitor, ReadEvent{Reader: fmt.Sprintf("%T", prng), Actor: r.current, Offset: -1, N: n, Kind: kind})
+	r.mu.Unlock()
 	return "prg:" + digestHex(buf), nil
 }
 
 // Drawn returns the variable that Field.Random yields for the named stream at a byte offset.
 func (r *Run) Drawn(reader string, off int) *F {
-	return &F{f: r.field, p: r.newVar(fmt.Sprintf("rnd:%s@%d", reader, off))}
+	return r.field.mk(r.newVarL(fmt.Sprintf("rnd:%s@%d", reader, off)))
 }
